@@ -230,3 +230,38 @@ def r11c(ctx: Ctx) -> list[Ob]:
 
 def run(ctx: Ctx) -> list[Ob]:
     return r11a(ctx) + r11b(ctx) + r11c(ctx)
+
+
+def r11d(ctx: Ctx) -> list[Ob]:
+    """R11d -- every hand-written stable exponential in the torch backend, ``exp(x - m)`` with m derived
+    from a maximum of x, takes that maximum *along an axis* (``dim=`` given, per row), never over the
+    whole tensor: a global shift leaves rows far below the global maximum to underflow, and the
+    normalisation that follows divides 0 by 0 (a softmax over parameters of very different scale
+    yields nan instead of weights that sum to one)."""
+    obs: list[Ob] = []
+    for f in ctx.repo.iter_functions():
+        if not f.module.name.startswith("cirkit.backend.torch"):
+            continue
+        ld = None
+        k = 0
+        for n in walk_no_nested(f.node):
+            if not (isinstance(n, ast.Call) and (dotted(n.func) or "").split(".")[-1] in EXP_LIKE and n.args):
+                continue
+            ld = ld or LocalDefs(f.node)
+            for e in ld.expand(n.args[0]):
+                for s in ast.walk(e):
+                    if not (isinstance(s, ast.BinOp) and isinstance(s.op, ast.Sub)):
+                        continue
+                    maxes = [c_ for c_ in ld.calls(s.right) if (dotted(c_.func) or "").split(".")[-1] in MAX_FUNCS]
+                    if not maxes:
+                        continue
+                    k += 1
+                    mx = maxes[0]
+                    has_dim = any(kw.arg == "dim" for kw in mx.keywords) or len(mx.args) >= 2
+                    inst = f"shift#{k}"
+                    loc = f"{f.module.relpath}:{s.lineno}"
+                    if has_dim:
+                        obs.append(ok("R11d", f.qualname, inst, "the shift is a maximum along an axis", loc))
+                    else:
+                        obs.append(viol("R11d", f.qualname, inst, f"`{ast.unparse(s)[:60]}` shifts by the maximum of the *whole* tensor ({ast.unparse(mx)[:40]}): rows far below it underflow and the following normalisation is 0/0", loc))
+    return obs
